@@ -225,12 +225,14 @@ class Oracle:
                     self.fallback_used = True
         return out
 
-    def averages(self, rm) -> None:
+    def averages(self, rm) -> dict[int, np.ndarray | None]:
+        out = {}
         for mid in self.node_ids(rm):
             used = bits(mid)
             from incomplete_cooperative.coalitions import Coalition
             coals = [Coalition(self.V[i]) for i in used]
             kind, a = vec_answer(lambda: rm.get_average_strategy(coals))
+            out[mid] = a
             if a is None:
                 if kind == "err:nan":
                     self.bad("average strategy is not finite (0/0) at a node", self.nan_key("regret:non-finite"),
@@ -246,6 +248,7 @@ class Oracle:
             elif np.any(a[zero] != 0):
                 self.bad("average strategy puts weight on a non-viable or already revealed coalition",
                          "regret:average-support", node=mid, iteration=len(self.hist), average=a.tolist())
+        return out
 
     def after_iteration(self, rm, before: np.ndarray, strat_before: dict) -> None:
         reg = np.asarray(rm.cumulative_regret, dtype=float)
@@ -317,8 +320,10 @@ def rows_answer(a: np.ndarray) -> list[list[float]]:
     return [[float(x) for x in row] for row in a]
 
 
-def drive(res, script, case_id, name, n, limit, plus, hist, rnd, tmp: Path | None, sample_nodes=24, after_load=2):
-    """Run one case on the real code (oracle) and, when `script` is given, emit the model lines."""
+def drive(res, script, case_id, name, n, limit, plus, hist, rnd, tmp: Path | None, sample_nodes=24, after_load=2,
+          more_steps: list[dict] | None = None):
+    """Run one case on the real code (oracle) and, when `script` is given, emit the model lines.
+    `more_steps`: the iterations made after the save point (replays); drawn from `rnd` when None."""
     from incomplete_cooperative.coalitions import Coalition
     from incomplete_cooperative.regret import GameRegretMinimizer
     done: list[dict] = []
@@ -413,51 +418,537 @@ def drive(res, script, case_id, name, n, limit, plus, hist, rnd, tmp: Path | Non
     # save / load
     if alive and tmp is not None:
         d = tmp / f"{name}"
+        snap = snapshot(rm)                       # deep copy of the state at save time
+        T = len(hist)
+        rm2 = rm3 = None
         try:
-            rm.save(d)
-            params = json.loads((d / "params.json").read_text())
-            rm2 = GameRegretMinimizer.load(d)
-        except Exception as e:  # noqa: BLE001
-            orc.bad(f"save / load raises {type(e).__name__}", "regret:save-load")
-            rm2 = None
+            try:
+                rm.save(d)
+                params = json.loads((d / "params.json").read_text())
+                rm2 = GameRegretMinimizer.load(d)
+            except Exception as e:  # noqa: BLE001
+                orc.bad(f"save / load raises {type(e).__name__}", "regret:save-load")
+                rm2 = None
+            if rm2 is not None:
+                same = (params == {"iteration": int(rm.iteration), "number_of_players": n,
+                                   "limit_of_revealed": int(rm.limit_of_revealed), "plus": bool(plus)}
+                        and rm2.iteration == rm.iteration and rm2.plus == rm.plus
+                        and rm2.limit_of_revealed == rm.limit_of_revealed
+                        and rm2.cumulative_regret.dtype == rm.cumulative_regret.dtype
+                        and np.array_equal(rm2.cumulative_regret, rm.cumulative_regret)
+                        and np.array_equal(rm2.cumulative_strategy, rm.cumulative_strategy)
+                        and np.array_equal(rm2.meta_rank_to_id, rm.meta_rank_to_id)
+                        and np.array_equal(rm2.meta_id_to_rank, rm.meta_id_to_rank))
+                if not same:
+                    orc.bad("a saved-then-loaded minimiser differs from the original", "regret:save-load")
+                if not same_state(rm, snap) or not same_state(rm2, snap):
+                    orc.bad("saving changed the minimiser, or the loaded minimiser is not the state at save time",
+                            "regret:save-load", saved_at=T)
+                try:                              # a sibling loaded from the same checkpoint, never iterated
+                    rm3 = GameRegretMinimizer.load(d)
+                except Exception as e:  # noqa: BLE001
+                    orc.bad(f"loading one checkpoint twice raises {type(e).__name__}", "regret:save-load", saved_at=T)
+                if rm3 is not None and not same_state(rm3, snap):
+                    orc.bad("the second of two minimisers loaded from one checkpoint is not the saved state",
+                            "regret:save-load", saved_at=T)
+                n2, nB = name + "L", name + "B"
+                pol2 = pol(len(rm2.meta_id_to_rank), int(rm2.limit_of_revealed))
+                add(f"rgt saveload {name} {n2}{pol2}", "ok", {"case": case_id})
+                # the model's checkpoint loaded once more (the real one is loaded again further down, after `n2` moved on)
+                add(f"rgt saveload {name} {nB}{pol2}", None, {"case": case_id})
+                add(f"rgt info {n2}", f"n={rm2.number_of_players} m={rm2.number_of_coalitions} limit={int(rm2.limit_of_revealed)} "
+                                      f"plus={int(bool(rm2.plus))} V={rm2.viable_metacoalitions} R={int(rm2.number_of_regret_minimizers)} "
+                                      f"tlen={len(rm2.meta_id_to_rank)} it={rm2.iteration}", {"case": case_id})
+                more = [dict(x) for x in more_steps] if more_steps is not None else gen_history(rnd, n, limit, after_load)
+                traj: list[dict] = []             # the original after each further iteration
+                continued = False
+                for j, step in enumerate(more, start=1):
+                    a1, a2 = do_iteration(rm, step), do_iteration(rm2, step)
+                    done.append(step)
+                    line = f"{','.join(step['terminal']) or '-'} {used_str(step['used'])}"
+                    add(f"rgt iter {name} {line}", a1, {"case": case_id, "t": T + j})
+                    add(f"rgt iter {n2} {line}", a2, {"case": case_id, "t": T + j})
+                    if a1 != a2 or a1 != "ok" or not (np.array_equal(rm.cumulative_regret, rm2.cumulative_regret)
+                                                      and np.array_equal(rm.cumulative_strategy, rm2.cumulative_strategy)
+                                                      and rm.iteration == rm2.iteration):
+                        orc.bad("a saved-then-loaded minimiser does not continue identically", "regret:save-load",
+                                iteration=T + j, saved_at=T)
+                        break
+                    traj.append(snapshot(rm))
+                else:
+                    continued = True
+                    add(f"rgt regret {n2}", None, Num(case_id, T + len(more), "regret", np.asarray(rm2.cumulative_regret, dtype=float)))
+                    add(f"rgt cumstrat {n2}", None, Num(case_id, T + len(more), "cumstrat", np.asarray(rm2.cumulative_strategy, dtype=float)))
+                res.count("saveload")
+                if continued:
+                    checkpoint_again(res, add, orc, case_id, nB, n, limit, plus, hist, more, d, snap, params, traj, rm2, rm3)
         finally:
             shutil.rmtree(d, ignore_errors=True)
-        if rm2 is not None:
-            same = (params == {"iteration": int(rm.iteration), "number_of_players": n,
-                               "limit_of_revealed": int(rm.limit_of_revealed), "plus": bool(plus)}
-                    and rm2.iteration == rm.iteration and rm2.plus == rm.plus
-                    and rm2.limit_of_revealed == rm.limit_of_revealed
-                    and rm2.cumulative_regret.dtype == rm.cumulative_regret.dtype
-                    and np.array_equal(rm2.cumulative_regret, rm.cumulative_regret)
-                    and np.array_equal(rm2.cumulative_strategy, rm.cumulative_strategy)
-                    and np.array_equal(rm2.meta_rank_to_id, rm.meta_rank_to_id)
-                    and np.array_equal(rm2.meta_id_to_rank, rm.meta_id_to_rank))
-            if not same:
-                orc.bad("a saved-then-loaded minimiser differs from the original", "regret:save-load")
-            n2 = name + "L"
-            add(f"rgt saveload {name} {n2}{pol(len(rm2.meta_id_to_rank), int(rm2.limit_of_revealed))}", "ok", {"case": case_id})
-            add(f"rgt info {n2}", f"n={rm2.number_of_players} m={rm2.number_of_coalitions} limit={int(rm2.limit_of_revealed)} "
-                                  f"plus={int(bool(rm2.plus))} V={rm2.viable_metacoalitions} R={int(rm2.number_of_regret_minimizers)} "
-                                  f"tlen={len(rm2.meta_id_to_rank)} it={rm2.iteration}", {"case": case_id})
-            more = gen_history(rnd, n, limit, after_load)
-            T = len(hist)
-            for j, step in enumerate(more, start=1):
-                a1, a2 = do_iteration(rm, step), do_iteration(rm2, step)
-                done.append(step)
-                line = f"{','.join(step['terminal']) or '-'} {used_str(step['used'])}"
-                add(f"rgt iter {name} {line}", a1, {"case": case_id, "t": T + j})
-                add(f"rgt iter {n2} {line}", a2, {"case": case_id, "t": T + j})
-                if a1 != a2 or a1 != "ok" or not (np.array_equal(rm.cumulative_regret, rm2.cumulative_regret)
-                                                  and np.array_equal(rm.cumulative_strategy, rm2.cumulative_strategy)
-                                                  and rm.iteration == rm2.iteration):
-                    orc.bad("a saved-then-loaded minimiser does not continue identically", "regret:save-load",
-                            iteration=T + j)
-                    break
-            else:
-                add(f"rgt regret {n2}", None, Num(case_id, T + len(more), "regret", np.asarray(rm2.cumulative_regret, dtype=float)))
-                add(f"rgt cumstrat {n2}", None, Num(case_id, T + len(more), "cumstrat", np.asarray(rm2.cumulative_strategy, dtype=float)))
-            res.count("saveload")
     return orc, rm
+
+
+# --------------------------------------------------------------------------------------------------
+# checkpoints loaded more than once; several minimisers alive at once
+
+KEY_REWRITTEN = "regret:checkpoint-rewritten"
+KEY_ALIAS = "regret:checkpoint-aliasing"
+KEY_INTERFERE = "regret:instances-interfere"
+KEY_DETERMINISM = "regret:history-determinism"
+
+
+def snapshot(rm) -> dict:
+    """deep copy of what an iteration changes"""
+    return {"it": int(rm.iteration),
+            "reg": np.array(rm.cumulative_regret, copy=True, subok=False),
+            "str": np.array(rm.cumulative_strategy, copy=True, subok=False)}
+
+
+def same_state(rm, snap: dict) -> bool:
+    """bit-identical tables and the same iteration counter (values only: not the array class, not the identity)"""
+    return (int(rm.iteration) == snap["it"]
+            and np.array_equal(np.asarray(rm.cumulative_regret), snap["reg"], equal_nan=True)
+            and np.array_equal(np.asarray(rm.cumulative_strategy), snap["str"], equal_nan=True))
+
+
+def same_vecs(a: dict, b: dict) -> bool:
+    return a.keys() == b.keys() and all((a[k] is None and b[k] is None) or
+                                        (a[k] is not None and b[k] is not None and np.array_equal(a[k], b[k]))
+                                        for k in a)
+
+
+def info_answer(rm) -> str:
+    return (f"n={rm.number_of_players} m={rm.number_of_coalitions} limit={int(rm.limit_of_revealed)} "
+            f"plus={int(bool(rm.plus))} V={rm.viable_metacoalitions} R={int(rm.number_of_regret_minimizers)} "
+            f"tlen={len(rm.meta_id_to_rank)} it={rm.iteration}")
+
+
+def iter_line(step: dict) -> str:
+    return f"{','.join(step['terminal']) or '-'} {used_str(step['used'])}"
+
+
+def checkpoint_again(res, add, orc, case_id, nB, n, limit, plus, hist, more, d: Path, snap, params, traj, rm2, rm3) -> None:
+    """The checkpoint in `d` was loaded (rm2, iterated `more` alongside the original, whose states are `traj`;
+    rm3, never iterated).  Now: the sibling rm3 is unchanged; the same directory loaded once more (B) is the
+    state that was saved (`snap`, the deep copy taken at save time) and continues like the original did and
+    like a twin that went through the same history without ever being saved."""
+    from incomplete_cooperative.regret import GameRegretMinimizer
+    T = snap["it"]
+    if rm3 is not None and not same_state(rm3, snap):
+        orc.bad("two minimisers were loaded from one checkpoint and one of them was iterated: the other one changed",
+                KEY_ALIAS, saved_at=T)
+    try:
+        paramsB = json.loads((d / "params.json").read_text())
+        rmB = GameRegretMinimizer.load(d)
+    except Exception as e:  # noqa: BLE001
+        orc.bad(f"loading a checkpoint again raises {type(e).__name__}", "regret:save-load", saved_at=T)
+        return
+    if paramsB != params or not same_state(rmB, snap) or bool(rmB.plus) != bool(plus) \
+            or int(rmB.limit_of_revealed) != int(rm2.limit_of_revealed):
+        orc.bad("a checkpoint loaded again, after the minimiser loaded from it first was iterated, is not the state "
+                "that was saved", KEY_REWRITTEN, saved_at=T)
+    res.count("checkpoint_loaded_again")
+    add(f"rgt info {nB}", info_answer(rmB), {"case": case_id})
+    add(f"rgt regret {nB}", None, Num(case_id, T, "regret", np.asarray(rmB.cumulative_regret, dtype=float)))
+    add(f"rgt cumstrat {nB}", None, Num(case_id, T, "cumstrat", np.asarray(rmB.cumulative_strategy, dtype=float)))
+    # a twin that went through the same history and was never saved, stopped at the save point
+    twin, _, _, _ = construct(n, limit, plus)
+    if twin is not None:
+        for step in hist:
+            if do_iteration(twin, step) != "ok":
+                twin = None
+                break
+    if twin is not None and not same_state(twin, snap):
+        orc.bad("a second minimiser given the same history does not reach the same state", KEY_DETERMINISM, saved_at=T)
+        twin = None
+    doneB = [dict(h) for h in hist]
+    orcB = Oracle(n, limit, plus, doneB)
+    for j, step in enumerate(more, start=1):
+        before = np.asarray(rmB.cumulative_regret, dtype=float).copy()
+        sB = orcB.strategies(rmB)
+        orcB.averages(rmB)
+        aB = do_iteration(rmB, step)
+        doneB.append(step)
+        aT = do_iteration(twin, step) if twin is not None else "ok"
+        add(f"rgt iter {nB} {iter_line(step)}", aB, {"case": case_id, "t": T + j})
+        if aB != "ok" or not same_state(rmB, traj[j - 1]):
+            orc.bad("a checkpoint loaded a second time does not continue identically to the original",
+                    "regret:save-load" if same_state(rm2, traj[-1]) else KEY_ALIAS, iteration=T + j, saved_at=T)
+            break
+        if twin is not None and (aT != "ok" or not same_state(twin, traj[j - 1])):
+            orc.bad("the saved minimiser and a never-saved twin with the same history continue differently",
+                    KEY_DETERMINISM, iteration=T + j, saved_at=T)
+            break
+        orcB.after_iteration(rmB, before, sB)
+    else:
+        add(f"rgt regret {nB}", None, Num(case_id, T + len(more), "regret", np.asarray(rmB.cumulative_regret, dtype=float)))
+        add(f"rgt cumstrat {nB}", None, Num(case_id, T + len(more), "cumstrat", np.asarray(rmB.cumulative_strategy, dtype=float)))
+    orc.nodes += orcB.nodes
+    for what, rp, key in orcB.found:
+        if len(orc.found) < 8:
+            orc.found.append((what + " (checkpoint loaded a second time)", {**rp, "saved_at": T}, key))
+    # iterating B touched neither the untouched sibling nor the minimiser loaded first
+    if rm3 is not None and not same_state(rm3, snap):
+        orc.bad("iterating one minimiser loaded from a checkpoint changed another one loaded from the same checkpoint",
+                KEY_ALIAS, saved_at=T)
+    if traj and not same_state(rm2, traj[-1]):
+        orc.bad("iterating a minimiser loaded from a checkpoint changed the one loaded from it before",
+                KEY_ALIAS, saved_at=T)
+
+
+class Member:
+    """one minimiser of an ensemble (several alive in one process)"""
+
+    def __init__(self, idx, name, n, limit, plus, steps, pos, end, root, ref, done):
+        self.idx, self.name, self.n, self.limit, self.plus = idx, name, n, limit, plus
+        self.steps, self.pos, self.end, self.root, self.ref = steps, pos, end, root, ref
+        self.start = pos                      # iterations already in the checkpoint it was loaded from
+        self.done = done
+        self.orc = Oracle(n, limit, plus, done)
+        self.rm = None
+        self.strat: dict | None = None        # current strategies, valid until this member's next iteration
+        self.dead = False
+        self.diverged = False
+
+
+def solo_reference(n: int, limit: int, plus: bool, steps: list[dict]):
+    """What the minimiser does with this history when nothing else is alive: state, current and average
+    strategies at every node before / after every iteration, and the outcome of every iteration.
+    The run is itself checked by the property oracle.  -> (reference | None, oracle)"""
+    done: list[dict] = []
+    orc = Oracle(n, limit, plus, done)
+    rm, _, _, _ = construct(n, limit, plus)
+    if rm is None:
+        return None, orc
+    ref = {"states": [snapshot(rm)], "strats": [], "avgs": [], "answers": []}
+    strat = orc.strategies(rm)
+    ref["strats"].append(strat)
+    ref["avgs"].append(orc.averages(rm))
+    for step in steps:
+        before = np.asarray(rm.cumulative_regret, dtype=float).copy()
+        a = do_iteration(rm, step)
+        done.append(step)
+        ref["answers"].append(a)
+        if a != "ok":
+            if a == "err:nan":
+                orc.after_iteration(rm, before, strat)
+            else:
+                orc.bad(f"regret_min_iteration raises {a}", f"regret:iteration-raises:{a}", iteration=len(done))
+            break
+        orc.after_iteration(rm, before, strat)
+        ref["states"].append(snapshot(rm))
+        strat = orc.strategies(rm)
+        ref["strats"].append(strat)
+        ref["avgs"].append(orc.averages(rm))
+    del rm
+    return ref, orc
+
+
+def ens_templates(tier: str, rnd) -> list[list[tuple]]:
+    """member configurations (n, limit, plus, iterations) of the ensembles"""
+    out = [
+        [(3, 2, False, 3), (3, 2, True, 3)],                          # same n and limit, plain next to plus
+        [(3, 1, False, 3), (3, 3, False, 3), (3, 5, True, 3)],        # same n, different limits
+        [(3, 2, False, 3), (4, 2, False, 2)],                         # different n
+        [(4, 1, True, 2), (3, 3, True, 3), (4, 2, False, 2)],
+        [(3, 4, True, 4), (3, 4, True, 4)],                           # one configuration, two histories
+        [(4, 2, True, 2), (4, 2, False, 2), (3, 1, True, 2)],
+    ]
+    if tier != "quick":
+        out += [[(5, 1, False, 2), (4, 2, True, 2), (5, 2, False, 1)], [(4, 3, False, 2), (3, 2, True, 4)],
+                [(5, 2, True, 1), (3, 3, False, 4)]]
+        for _ in range(21):
+            k = rnd.choice([2, 2, 3, 3, 4])
+            tpl = []
+            for j in range(k):
+                n = tpl[0][0] if j == 1 and rnd.random() < 0.5 else rnd.choice([3, 3, 3, 4, 4])
+                L = rnd.randint(1, 6) if n == 3 else rnd.choice([1, 2, 2, 3])
+                if j == 1 and n == tpl[0][0] and rnd.random() < 0.5:
+                    L = tpl[0][1]
+                tpl.append((n, L, rnd.random() < 0.5, rnd.randint(2, 5) if n == 3 else 2))
+            out.append(tpl)
+    return out
+
+
+def gen_ensemble(rnd, template: list[tuple], max_members: int = 6) -> dict:
+    """members (configuration + history) and a schedule of events
+         ["iter", i]  ["strat", i]  ["avg", i]  ["save", i, slot]  ["load", slot, further iterations]
+    in which iterations and public queries of the members are interleaved at random.  One member is saved
+    at a drawn point and the checkpoint loaded right away; checkpoints are loaded again later (each load is a
+    new member, numbered in the order of the load events, which retraces the saver's remaining history for
+    1..2 iterations), and once more at the very end."""
+    members = [{"n": n, "limit": L, "plus": bool(plus), "history": gen_history(rnd, n, L, steps)}
+               for n, L, plus, steps in template]
+    pos = [0] * len(members)
+    total = [len(m["history"]) for m in members]
+    end = list(total)
+    slots: list[tuple[int, int]] = []
+    sched: list[list] = []
+
+    def load(slot: int, cont: int) -> None:
+        saver, T = slots[slot]
+        pos.append(T)
+        total.append(total[saver])
+        end.append(min(total[saver], T + cont))
+        sched.append(["load", slot, cont])
+
+    def save(i: int) -> None:
+        slots.append((i, pos[i]))
+        sched.append(["save", i, len(slots) - 1])
+
+    ck_member = rnd.randrange(len(members))
+    ck_at = rnd.randint(1, max(1, total[ck_member] - 1))
+    guard = 0
+    while any(p < e for p, e in zip(pos, end)) and guard < 300:
+        guard += 1
+        r = rnd.random()
+        i = rnd.randrange(len(pos))
+        if r < 0.30:
+            i = rnd.choice([j for j in range(len(pos)) if pos[j] < end[j]])
+            sched.append(["iter", i])
+            pos[i] += 1
+            if i == ck_member and pos[i] == ck_at and not slots:
+                save(i)
+                load(0, rnd.randint(1, 2))
+        elif r < 0.60:
+            sched.append(["strat", i])
+        elif r < 0.72:
+            sched.append(["avg", i])
+        elif r < 0.80:
+            if slots and len(slots) < 2 and 1 <= pos[i] < total[i]:
+                save(i)
+        elif slots and len(pos) < max_members:
+            load(rnd.randrange(len(slots)), rnd.randint(1, 2))
+    for slot in range(len(slots)):
+        load(slot, 0)
+    return {"members": members, "schedule": sched}
+
+
+def ensemble(res, script, ens_id, spec: dict, rnd, tmp: Path, sample_nodes: int = 6):
+    """Run an ensemble (see gen_ensemble) on the real code.  Every member has its own property oracle, its own
+    model instance (when `script` is given) and is compared bit for bit with the reference of its own history
+    run alone (solo_reference; a loaded member retraces its saver).  -> (found [(what, replay, key)], members)"""
+    from incomplete_cooperative.coalitions import Coalition
+    from incomplete_cooperative.regret import GameRegretMinimizer
+    found: list[tuple[str, dict, str]] = []
+    nmem = len(spec["members"])
+
+    def bad(what: str, key: str, **extra) -> None:
+        if len(found) < 8:
+            found.append((what, {"ensemble": spec, **extra}, key))
+
+    def add(line, ans=None, ctx=None):
+        if script is not None:
+            script.add(line, ans, ctx)
+
+    def case_of(mb: Member):
+        return ("ens", ens_id, mb.root)
+
+    def numeric(mb: Member, line, what, f, zeros=()):
+        kind, a = vec_answer(f)
+        if kind == "num":
+            add(line, None, Num(case_of(mb), mb.pos, what, a, zeros))
+        else:
+            add(line, kind, {"case": case_of(mb), "t": mb.pos})
+
+    def check_state(mb: Member, k) -> None:
+        ref = mb.ref
+        if ref is None or mb.diverged or mb.pos >= len(ref["states"]):
+            return
+        if not same_state(mb.rm, ref["states"][mb.pos]):
+            mb.diverged = True
+            bad(f"{nmem} minimisers alive at once (and checkpoints of them): after {mb.pos} iterations the state of "
+                f"minimiser {mb.idx} differs from the state its own history produces when it is run alone",
+                KEY_INTERFERE, member=mb.idx, event=k, iteration=mb.pos)
+
+    def check_vecs(mb: Member, k, got: dict, which: str) -> None:
+        ref = mb.ref
+        if ref is None or mb.diverged or mb.pos >= len(ref[which]):
+            return
+        if not same_vecs(got, ref[which][mb.pos]):
+            mb.diverged = True
+            fn = "regret_matching_strategy" if which == "strats" else "get_average_strategy"
+            bad(f"{nmem} minimisers alive at once: {fn} of minimiser {mb.idx} after {mb.pos} iterations does not "
+                f"return what the same minimiser returns when it is run alone with the same history",
+                KEY_INTERFERE, member=mb.idx, event=k, iteration=mb.pos)
+
+    def sample(mb: Member) -> list[int]:
+        nodes = mb.orc.node_ids(mb.rm)
+        if len(nodes) > sample_nodes:
+            nodes = [nodes[0]] + rnd.sample(nodes[1:], sample_nodes - 1)
+        return nodes
+
+    def query_strat(mb: Member, k) -> None:
+        V = viable(mb.n)
+        s = mb.orc.strategies(mb.rm)
+        mb.strat = s
+        check_vecs(mb, k, s, "strats")
+        check_state(mb, k)
+        nodes = sample(mb)
+        for mid in nodes:
+            numeric(mb, f"rgt strategy {mb.name} {mid}", "strategy", lambda: mb.rm.regret_matching_strategy(mid), bits(mid))
+        if nodes:
+            mid = rnd.choice(nodes)
+            cs = [V[i] for i in bits(mid)]
+            rnd.shuffle(cs)
+            numeric(mb, f"rgt strategyc {mb.name} {nlist(cs)}", "strategy",
+                    lambda: mb.rm.regret_matching_strategy([Coalition(c) for c in cs]), bits(mid))
+
+    def query_avg(mb: Member, k) -> None:
+        V = viable(mb.n)
+        a = mb.orc.averages(mb.rm)
+        check_vecs(mb, k, a, "avgs")
+        check_state(mb, k)
+        for mid in sample(mb):
+            used = bits(mid)
+            cs = [V[i] for i in used]
+            rnd.shuffle(cs)
+            zero = [c for c in range(2 ** mb.n) if c not in V or V.index(c) in used]
+            numeric(mb, f"rgt avg {mb.name} {nlist(cs)}", "average",
+                    lambda: mb.rm.get_average_strategy([Coalition(c) for c in cs]), zero)
+
+    # ---- what every member does alone (nothing else alive), before the ensemble exists
+    refs = []
+    for ms in spec["members"]:
+        ref, orc0 = solo_reference(int(ms["n"]), int(ms["limit"]), bool(ms["plus"]), ms["history"])
+        refs.append(ref)
+        res.count("nodes_checked", orc0.nodes)
+        for what, rp, key in orc0.found:
+            if len(found) < 8:
+                found.append((what, rp, key))
+    members: list[Member] = []
+    slots: dict[int, dict] = {}
+    edir = tmp / f"ens{ens_id}"
+    try:
+        for i, ms in enumerate(spec["members"]):
+            n, limit, plus = int(ms["n"]), int(ms["limit"]), bool(ms["plus"])
+            mb = Member(i, f"e{ens_id}m{i}", n, limit, plus, ms["history"], 0, len(ms["history"]), i, refs[i], [])
+            members.append(mb)
+            rm, ans, tlen, stored = construct(n, limit, plus)
+            add(f"rgt new {mb.name} {n} {limit} {int(plus)}{pol(tlen, stored)}", ans, {"case": case_of(mb)})
+            res.count(f"ens:construct:{ans}")
+            if rm is None:
+                mb.dead = True                     # reported by the single-minimiser cases
+                continue
+            mb.rm = rm
+            add(f"rgt info {mb.name}", info_answer(rm), {"case": case_of(mb)})
+            check_state(mb, -1)
+        for k, ev in enumerate(spec["schedule"]):
+            kind = ev[0]
+            res.count(f"ens:event:{kind}")
+            if kind == "load":
+                slot, cont = int(ev[1]), int(ev[2])
+                sl = slots.get(slot)
+                idx = len(members)
+                if sl is None:
+                    ph = Member(idx, f"e{ens_id}m{idx}", 3, 1, False, [], 0, 0, idx, None, [])
+                    ph.dead = True
+                    members.append(ph)
+                    continue
+                sv: Member = sl["saver"]
+                mb = Member(idx, f"e{ens_id}m{idx}", sv.n, sv.limit, sv.plus, sv.steps, sl["T"],
+                            min(len(sv.steps), sl["T"] + cont), sv.root, sv.ref, [dict(h) for h in sl["done"]])
+                members.append(mb)
+                try:
+                    params = json.loads((sl["dir"] / "params.json").read_text())
+                    mb.rm = GameRegretMinimizer.load(sl["dir"])
+                except Exception as e:  # noqa: BLE001
+                    bad(f"loading a checkpoint raises {type(e).__name__}", "regret:save-load", event=k)
+                    mb.dead = True
+                    continue
+                moved = [x.idx for x in sl["loaded"] if x.pos > sl["T"]]
+                if params != sl["params"] or not same_state(mb.rm, sl["snap"]) or bool(mb.rm.plus) != sv.plus \
+                        or int(mb.rm.limit_of_revealed) != sl["stored"]:
+                    mb.diverged = True
+                    if moved:
+                        bad(f"a checkpoint loaded again is not the state that was saved (the minimiser(s) {moved} loaded "
+                            f"from it before have been iterated since)", KEY_REWRITTEN, event=k, member=idx)
+                    else:
+                        bad("a saved-then-loaded minimiser differs from the state at save time", "regret:save-load",
+                            event=k, member=idx)
+                sl["loaded"].append(mb)
+                add(f"rgt saveload {sl['ck']} {mb.name}{pol(len(mb.rm.meta_id_to_rank), int(mb.rm.limit_of_revealed))}",
+                    "ok", {"case": case_of(mb)})
+                add(f"rgt info {mb.name}", info_answer(mb.rm), {"case": case_of(mb)})
+                add(f"rgt regret {mb.name}", None, Num(case_of(mb), mb.pos, "regret", np.asarray(mb.rm.cumulative_regret, dtype=float)))
+                add(f"rgt cumstrat {mb.name}", None, Num(case_of(mb), mb.pos, "cumstrat", np.asarray(mb.rm.cumulative_strategy, dtype=float)))
+                continue
+            mb = members[int(ev[1])] if int(ev[1]) < len(members) else None
+            if mb is None or mb.dead or mb.rm is None:
+                continue
+            if kind == "iter":
+                if mb.pos >= mb.end:
+                    continue
+                step = mb.steps[mb.pos]
+                before = np.asarray(mb.rm.cumulative_regret, dtype=float).copy()
+                played = mb.strat if mb.strat is not None else {}
+                a = do_iteration(mb.rm, step)
+                mb.done.append(step)
+                mb.pos += 1
+                mb.strat = None
+                add(f"rgt iter {mb.name} {iter_line(step)}", a, {"case": case_of(mb), "t": mb.pos})
+                res.count(f"ens:iter:{a}")
+                ref = mb.ref
+                if ref is not None and not mb.diverged and len(ref["answers"]) >= mb.pos and ref["answers"][mb.pos - 1] != a:
+                    mb.diverged = True
+                    bad(f"{nmem} minimisers alive at once: iteration {mb.pos} of minimiser {mb.idx} ends with {a}, with "
+                        f"{ref['answers'][mb.pos - 1]} when it is run alone with the same history",
+                        KEY_INTERFERE, member=mb.idx, event=k, iteration=mb.pos)
+                if a != "ok":
+                    if a == "err:nan":
+                        mb.orc.after_iteration(mb.rm, before, played)
+                    else:
+                        mb.orc.bad(f"regret_min_iteration raises {a}", f"regret:iteration-raises:{a}", iteration=mb.pos)
+                    mb.dead = True
+                    continue
+                mb.orc.after_iteration(mb.rm, before, played)
+                add(f"rgt regret {mb.name}", None, Num(case_of(mb), mb.pos, "regret", np.asarray(mb.rm.cumulative_regret, dtype=float)))
+                add(f"rgt cumstrat {mb.name}", None, Num(case_of(mb), mb.pos, "cumstrat", np.asarray(mb.rm.cumulative_strategy, dtype=float)))
+                check_state(mb, k)
+            elif kind == "strat":
+                query_strat(mb, k)
+            elif kind == "avg":
+                query_avg(mb, k)
+            elif kind == "save":
+                slot = int(ev[2])
+                d = edir / f"k{slot}"
+                snap = snapshot(mb.rm)
+                try:
+                    mb.rm.save(d)
+                    params = json.loads((d / "params.json").read_text())
+                except Exception as e:  # noqa: BLE001
+                    bad(f"save raises {type(e).__name__}", "regret:save-load", event=k)
+                    continue
+                if params != {"iteration": mb.pos, "number_of_players": mb.n,
+                              "limit_of_revealed": int(mb.rm.limit_of_revealed), "plus": mb.plus}:
+                    bad("params.json of a checkpoint is not the saved minimiser's parameters", "regret:save-load", event=k)
+                ck = f"e{ens_id}k{slot}"
+                slots[slot] = {"dir": d, "snap": snap, "saver": mb, "T": mb.pos, "done": [dict(h) for h in mb.done],
+                               "loaded": [], "ck": ck, "params": params, "stored": int(mb.rm.limit_of_revealed)}
+                add(f"rgt saveload {mb.name} {ck}{pol(len(mb.rm.meta_id_to_rank), int(mb.rm.limit_of_revealed))}", "ok",
+                    {"case": case_of(mb)})
+                check_state(mb, k)                 # saving does not change the saver
+        # ---- at the end every member is still on its own trajectory (also those not touched for a while)
+        for mb in members:
+            if mb.dead or mb.rm is None:
+                continue
+            check_state(mb, "end")
+            query_strat(mb, "end")
+            query_avg(mb, "end")
+        for sl in slots.values():                  # … and every loaded minimiser that was never iterated is still the checkpoint
+            for mb in sl["loaded"]:
+                if not mb.dead and mb.pos == sl["T"] and not same_state(mb.rm, sl["snap"]):
+                    bad("a minimiser loaded from a checkpoint and never iterated is no longer the saved state (another "
+                        "minimiser loaded from the same checkpoint was iterated)", KEY_ALIAS, member=mb.idx)
+    finally:
+        shutil.rmtree(edir, ignore_errors=True)
+    for mb in members:
+        res.count("nodes_checked", mb.orc.nodes)
+        for what, rp, key in mb.orc.found:
+            if len(found) < 12:
+                found.append((f"{what} (minimiser {mb.idx}, {nmem} alive at once)",
+                              {"ensemble": spec, "member": mb.idx,
+                               **{a: b for a, b in rp.items() if a not in ("history", "n", "limit", "plus")}}, key))
+    return found, members
 
 
 # --------------------------------------------------------------------------------------------------
@@ -517,7 +1008,7 @@ def _compare_numeric(res, script, nums: list[tuple[int, Num]]) -> None:
                         pos = sum(x for x in a if x > 0)
                         if any(abs(float(x)) <= 1e-4 and ((x > 0) != (y > 0)) for x, y in zip(a, b)) \
                                 or 0 < pos < Fraction(1, 1000):
-                            tied.setdefault(nm.case, nm.t)
+                            tied[nm.case] = min(tied.get(nm.case, nm.t), nm.t)
                             res.count("float_tie_histories")
                             break
             else:
@@ -631,6 +1122,31 @@ def run(tier: str, budget: Budget, rnd, arg) -> StreamResult:
                     res.sample({"n": n, "limit": L, "plus": plus, "first_step": hist[0] if hist and n == 3 else "…",
                                 "R": int(rm.number_of_regret_minimizers)}, limit=3)
                     del rm
+        # ---- several minimisers alive at once, operations interleaved, checkpoints loaded more than once
+        for e, tpl in enumerate(ens_templates(tier, rnd), start=1):
+            if not budget.ok():
+                res.notes.append(f"budget exhausted at ensemble {e}")
+                break
+            if any(t[0] == 5 for t in tpl) and mem_available_gb() < 3.0:
+                continue
+            spec = gen_ensemble(rnd, tpl)
+            found, members = ensemble(res, script, e, spec, rnd, tmp)
+            res.count("ensembles")
+            res.count(f"ens:members:{len(members)}")
+            res.count(f"ens:sizes:{'+'.join(sorted({str(t[0]) for t in tpl}))}")
+            for mb in members:
+                if mb.rm is None:
+                    continue
+                res.evaluations += 1 + (mb.pos - mb.start)
+                if mb.idx < len(tpl) and len(mb.done) >= 2 and mb.orc.nonuniform and mb.orc.fallback_used:
+                    res.nontrivial.add((mb.n, mb.limit, mb.plus, json.dumps(mb.steps, sort_keys=True)))
+            for what, rp, key in found:
+                sig = (key, "ens", e)
+                if sig not in reported and sum(1 for x in reported if x[0] == key) < 12:
+                    reported.add(sig)
+                    res.violation(what, rp, key=key)
+            res.sample({"ensemble": [list(t) for t in tpl], "schedule": spec["schedule"][:24]}, limit=4)
+            del members
     finally:
         shutil.rmtree(tmp, ignore_errors=True)
     # ---- model side
